@@ -300,16 +300,29 @@ func (a Complex) M__le__(other Object) (Object, error) {
 	return a.M__lt__(other)
 }
 
+// Reports whether a equals other which can be any number
+//
+// A real number equals a complex with a zero imaginary part and an
+// equal real part; ints of any size are compared by value, not after
+// conversion to float.  ok is false if other isn't a number.
+func complexEqual(a Complex, other Object) (eq bool, ok bool) {
+	if b, isComplex := other.(Complex); isComplex {
+		return a == b, true
+	}
+	c, ordered, ok := floatCompare(Float(real(a)), other)
+	return ok && ordered && c == 0 && imag(a) == 0, ok
+}
+
 func (a Complex) M__eq__(other Object) (Object, error) {
-	if b, ok := convertToComplex(other); ok {
-		return NewBool(a == b), nil
+	if eq, ok := complexEqual(a, other); ok {
+		return NewBool(eq), nil
 	}
 	return NotImplemented, nil
 }
 
 func (a Complex) M__ne__(other Object) (Object, error) {
-	if b, ok := convertToComplex(other); ok {
-		return NewBool(a != b), nil
+	if eq, ok := complexEqual(a, other); ok {
+		return NewBool(!eq), nil
 	}
 	return NotImplemented, nil
 }
